@@ -248,6 +248,48 @@ def pyc_pairs(rng, n):
     return out
 
 
+def cli_epochs(ctx):
+    """Two builds of one small tree (gzip, ar, javadoc page) that differ only in time stamps and ids, through the command line
+    with the epochs at the edges of what $SOURCE_DATE_EPOCH may hold: 0, 1 and a date later than today's.  Serial and -j2."""
+    import fscommon as fc
+    import fsharness as fh
+    from framework import build_cli
+    okc, outc = build_cli(release=False)
+    ctx.oblige("build: the command-line tool builds from /repo's current tree", okc, outc[-400:])
+    if not okc:
+        return [], 0
+    fails, n = [], 0
+
+    def page(day, stamp):
+        return ("<!DOCTYPE HTML>\n<html lang=\"en\">\n<head>\n<!-- Generated by javadoc (21) on %s -->\n<title>T</title>\n"
+                "<meta name=\"dc.created\" content=\"%s\">\n</head>\n<body>\ntext\n</body>\n</html>\n" % (stamp, day)).encode()
+
+    for epoch in (0, 1, hd.FUTURE_EPOCH):
+        late = epoch >= hd.FUTURE_EPOCH
+        builds = []
+        for k, (mt, uid, gid, day, stamp) in enumerate([(4100000000 if late else 1700000000, 1000, 425, "2099-03-02" if late else "2024-03-02", "Sat Mar 02 16:07:41 UTC 2024"),
+                                                         (4200000000 if late else 1711111111, 0, 7, "2099-05-06" if late else "2024-05-06", "Mon May 06 09:10:11 CEST 2024")]):
+            builds.append({"data.gz": fc.gz(mt, b"the same payload"), "libdemo.a": fc.ar([("one.o/", mt, uid, gid, 100644, b"abc"), ("two.o/", mt + 5, gid, uid, 100755, b"defg")]),
+                           "page.html": page(day, stamp)})
+        for jobs in ([], ["-j2"]):
+            t = fh.Tree()
+            try:
+                for k, b in enumerate(builds):
+                    for name, data in b.items():
+                        t.add_file("build%d/%s" % (k, name), data, mtime_ns=1_650_000_000_000_000_000)
+                rc, out = fh.run_cli(jobs + [t.path("build0"), t.path("build1")], epoch=epoch, timeout=60)
+                n += 1
+                label = "%s SOURCE_DATE_EPOCH=%d" % (" ".join(jobs) or "serial", epoch)
+                for name in builds[0]:
+                    a, b = open(t.path("build0/" + name), "rb").read(), open(t.path("build1/" + name), "rb").read()
+                    if a != b:
+                        fails.append(("cli-variants-differ", "%s: the two builds of %s, differing only in time stamps and ids, are still different after the run (exit %d)" % (label, name, rc), label, epoch, name, builds))
+                        break
+            finally:
+                t.remove()
+    return fails, n
+
+
 def run(ctx):
     rng = random.Random(ctx.seed)
     coq_property(ctx)
@@ -293,6 +335,13 @@ def run(ctx):
                 known_seen.setdefault(kind, (c0, msg))
             else:
                 fails.append((ids, kind, msg))
+    cfails, ncli = cli_epochs(ctx)
+    ctx.coverage["cli_epoch_runs"] = ncli
+    for kind, msg, label, epoch, name, builds in cfails[:1]:
+        d = write_replay(ctx, kind, {"build0-" + name: builds[0][name], "build1-" + name: builds[1][name]},
+                         {"failure": msg, "kind": kind, "case": label, "epoch": epoch,
+                          "how_to_replay": "put build0-<name> and build1-<name> as <name> into two directories; SOURCE_DATE_EPOCH=<epoch> add-determinism [-j2] dir0 dir1; cmp"})
+        ctx.violations.append({"replay": d, "kind": kind, "msg": msg})
     for kind, (c, msg) in known_seen.items():
         ctx.known.append("%s: %s [e.g. group of case %s: %s]" % (known[kind]["id"], known[kind]["what"], c.cid, msg))
     seen = set()
